@@ -192,6 +192,10 @@ class RoundTripCase(Case):
       if k in conf:
         # non-default constructor arguments survive the round trip
         cl.append(('argument-preserved[%s]' % k, B.const(_plain(conf[k]) == _plain(conf2.get(k)))))
+        v = cfg['kwargs'][k]
+        if v is None or isinstance(v, (bool, int, float)):
+          # plain numbers / flags are reported as given (a falsy 0 must not turn into None)
+          cl.append(('scalar-argument-is-reported-as-given[%s=%r]' % (k, v), B.const(conf[k] is not None and conf[k] == v if v is not None else conf[k] is None)))
     return cl
 
 
@@ -233,7 +237,9 @@ class LayerFunctionCase(Case):
       shape = tfc.TensorShape(cfg['input_shape'])
       x = tfc.sym([2] + list(cfg['input_shape'][1:]), 'x')
       if cfg.get('int_inputs'):
-        x = tfc.convert_to_tensor([[0.0, 2.0], [-1.0, 1.0]], dtype=tfc.float32)
+        x = tfc.convert_to_tensor(cfg.get('int_rows') or [[0.0, 2.0], [-1.0, 1.0]], dtype=tfc.float32)
+      if cfg.get('fixed_rows'):
+        x = tfc.convert_to_tensor(cfg['fixed_rows'], dtype=tfc.float32)
       if cfg.get('unit_box'):
         for v in x.a.flat:
           c.assume((P.lift(v) >= 0) & (P.lift(v) <= 1), 'inputs in the first cell (simplex oracle)')
@@ -506,7 +512,9 @@ ROUNDTRIPS = {
              impute_missing=True, missing_input_value=-1.0, missing_output_value=0.5, num_projection_iterations=3,
              split_outputs=True),
         dict(input_keypoints=[0.0, 1.0, 3.0], is_cyclic=True, impute_missing=True,
-             kernel_regularizer={'__tuple__': ['laplacian', 0.1, 0.0]}, input_keypoints_type='learned_interior')],
+             kernel_regularizer={'__tuple__': ['laplacian', 0.1, 0.0]}, input_keypoints_type='learned_interior'),
+        dict(input_keypoints=[-1.0, 1.0, 3.0], impute_missing=True, missing_input_value=0.0, missing_output_value=0.0,
+             output_min=0.0, output_max=0.0, num_projection_iterations=0, units=1)],
     ('pwl_calibration_layer', 'UniformOutputInitializer'): [dict(output_min=0.0, output_max=2.0, monotonicity=-1,
                                                                 keypoints=[0.0, 1.0, 4.0])],
     ('pwl_calibration_layer', 'PWLCalibrationConstraints'): [
@@ -528,7 +536,8 @@ ROUNDTRIPS = {
     ('categorical_calibration_layer', 'CategoricalCalibration'): [
         dict(num_buckets=3),
         dict(num_buckets=4, units=2, output_min=0.0, output_max=1.0, monotonicities=T((0, 1), (1, 2)),
-             default_input_value=-1, split_outputs=True, kernel_initializer='constant')],
+             default_input_value=-1, split_outputs=True, kernel_initializer='constant'),
+        dict(num_buckets=3, default_input_value=0, output_min=0.0, output_max=0.0)],
     ('categorical_calibration_layer', 'CategoricalCalibrationConstraints'): [
         dict(output_min=0.0, output_max=1.0, monotonicities=T((0, 1)))],
     ('kronecker_factored_lattice_layer', 'KroneckerFactoredLattice'): [
@@ -574,6 +583,11 @@ LAYER_FUNCTIONS = [
                                                     kernel_initializer='kfl_random_monotonic_initializer'), input_shape=[None, 3]),
     dict(module='categorical_calibration_layer', cls='CategoricalCalibration',
          kwargs=dict(num_buckets=3, units=2, default_input_value=-1, split_outputs=True), input_shape=[None, 2], int_inputs=True),
+    dict(module='categorical_calibration_layer', cls='CategoricalCalibration',
+         kwargs=dict(num_buckets=3, default_input_value=0), input_shape=[None, 1], int_inputs=True, int_rows=[[0], [2]]),
+    dict(module='pwl_calibration_layer', cls='PWLCalibration',
+         kwargs=dict(input_keypoints=[-1.0, 1.0, 3.0], impute_missing=True, missing_input_value=0.0, missing_output_value=0.0),
+         input_shape=[None, 1], fixed_rows=[[0.0], [2.0]]),
     dict(module='cdf_layer', cls='CDF', kwargs=dict(num_keypoints=2, units=2, activation='sigmoid', reduction='none',
                                                     sparsity_factor=2, input_scaling_type='learned_shared'), input_shape=[None, 2]),
 ]
